@@ -265,8 +265,8 @@ func fixedShape(which, tag string) []Ent {
 	}
 	var es []Ent
 	switch which {
-	case "10short":
-		for i := 0; i < 10; i++ {
+	case "6short":
+		for i := 0; i < 6; i++ {
 			es = append(es, mk(i, 3+i%3, []string{"f", "d", "f", "l", "f"}[i%5]))
 		}
 	case "4long":
@@ -287,10 +287,14 @@ func fixedShape(which, tag string) []Ent {
 // the fid, every entry is replaced so that the directory has shape B, and the
 // same fid lists again from offset 0 — once for EVERY constant count from 0
 // to the sum of B's three largest records +1. Every third count the listing
-// of A is abandoned after one read.
+// of A is abandoned after one read. Quick tier: 6 short names <-> 4 long
+// names; the thorough tier adds 14 short <-> 3 of mixed length.
 func TestEnumReshape(t *testing.T) {
 	defer dropBase()
-	pairs := [][2]string{{"10short", "4long"}, {"4long", "10short"}, {"14short", "3mixed"}}
+	pairs := [][2]string{{"6short", "4long"}, {"4long", "6short"}}
+	if hx.Thorough() {
+		pairs = append(pairs, [2]string{"14short", "3mixed"}, [2]string{"3mixed", "14short"})
+	}
 	const msize = 4096
 	n := 0
 	for _, dotu := range []bool{true, false} {
@@ -775,10 +779,10 @@ func genConc(t *rapid.T, maxDirs, lo, hi, maxConns int) *Case {
 // TestPropConc: directories of one server listed at the same moment.
 func TestPropConc(t *testing.T) {
 	defer dropBase()
-	hx.Check(t, "conc", hx.N(10, 40), func(t *rapid.T) {
+	hx.Check(t, "conc", hx.N(10, 16), func(t *rapid.T) {
 		var c *Case
 		if hx.Thorough() {
-			c = genConc(t, 5, 200, 2500, 8)
+			c = genConc(t, 5, 200, 2000, 8)
 		} else {
 			c = genConc(t, 4, 150, 1200, 6)
 		}
